@@ -45,8 +45,10 @@ def generate(NP, NREQ, MAXDEV, num, seed):
         shutil.rmtree(tmp, ignore_errors=True)
 
 
-def request(k, auth):
+def request(k, auth, binary=False):
     h = b'GET http://h.example/r%d HTTP/1.1\r\nHost: h.example\r\n' % k
+    if binary:          # a field value that is not UTF-8: nothing in the chain semantics depends on it, the access log has to cope
+        h += b'User-Agent: \xff\xfe agent\r\n'
     if auth == 'ok':
         h += b'Proxy-Authorization: Basic ' + base64.b64encode(CRED) + b'\r\n'
     elif auth == 'bad':
@@ -101,12 +103,13 @@ def execute(case, NP, NREQ, rnd, threaded=False):
     resp = b'HTTP/1.1 200 OK\r\nContent-Length: %d\r\n\r\n' % NP + b'_' * NP
     ending = case['ending']
     style = rnd.choice(['one', 'two', 'crlf'])
+    binary = rnd.random() < 0.25
     answered = 0
 
     def origin_requests():
         return len(split_requests(conv.sim.upstreams[0].got)) if conv.sim.upstreams else 0
     for k in range(1, NREQ + 1):
-        for piece in scen.pieces(request(k, case['auth']), rnd, style):
+        for piece in scen.pieces(request(k, case['auth'], binary), rnd, style):
             conv.step(('c', piece))
         if c.eof_seen or c.reset_seen:
             break
